@@ -41,7 +41,7 @@ T={
 'C18-r2s2':('C18','(same edit as C11-r2s2, found independently)','readable and writable reported in one event while a writer waits in EAGAIN','MISSED at first (one-directional traffic only); C18 got C cases: writer in EAGAIN, loop held, peer drains and sends, loop released -> FIRED'),
 'C19-r2s1':('C19','streamWrapper.Close: CAS replaced by load ... store','two goroutines closing one conn at once','MISSED at first; C19 got concurrent-conn-close rounds -> FIRED (WaitGroup panic)'),
 'C19-r2s2':('C19','listener-closed check moved before the handshake','Listener.Close while a client\'s handshake is in flight','MISSED at first; C19 got close-during-handshake rounds -> FIRED'),
-'C20-r2s1':('C20','event loop notifies recvNotifyCh only when no callbacks are installed','OnData blocked in a read for more than has arrived when the rest arrives','caught by C11 (ReadBytes inside a data callback x data); C20\'s own blocking-read case has the rest already pending when the read starts'),
+'C20-r2s1':('C20','event loop notifies recvNotifyCh only when no callbacks are installed','OnData blocked in a read for more than has arrived when the rest arrives','MISSED by C20 at first (its blocking-read case had the rest already pending when the read started; C11 saw it); C20 got late-data directed cases -> FIRED'),
 'C20-r2s2':('C20','offerToCallback accepts every state but closed','Close() during OnData with unconsumed data','fired at once (C20)'),
 }
 
